@@ -17,6 +17,16 @@ P = {
 def sx(text, ref, tech="symbolic execution of the generic code (T=Sym) over all sector paths + z3 QF_NRA/QF_UFNRA queries, native replay"):
     return dict(text=text, design_ref=ref, technique=tech, note=SYMX_NOTE)
 P.update({
+ "C03": dict(engine="kani+symx", design_ref="§6 C03", technique="Kani/CBMC proof harness over the compiled table assembly with nondeterministic graph-routine stubs; symbolic sector walk (z3) on catalogue graphs", note="Trusted: CBMC 6.11/CaDiCaL, the listed stubs (the stubbed HashSet routines are NOT verified by the solver: their results are only compared concretely with a union-find oracle on catalogue and awkward multigraphs), z3, the oracle.",
+   text="Partial, as DESIGN §6 says. (a) Kani: generate_from_tropical and from_graph are compiled and model-checked for E=2 with the two HashSet graph routines replaced by stubs that read symbolic arrays, i.e. for EVERY assignment of loop numbers and spanning flags to the subsets, symbolic weights, masses, labels: each entry stores exactly the stubbed loop number / flag and the generalised-dod formula; dod, loop count, massive count, weights echo the input; TropicalSubGraphId bit operations for 1..6 edges. (b) symx/z3 (part C07): on every sector of every catalogue graph the exponents 1/omega and the steps at which u_trop / v_trop change pin loop number, spanning flag and generalised dod of the subsets along every chain to the oracle. (c) concrete: every table entry of catalogue + awkward multigraphs (self-loops, labels 64 apart, disconnected, untouched externals) compared with the oracle. Not claimed by the solver: correctness of get_connected_components/get_loop_number/is_mass_momentum_spanning on arbitrary graphs."),
+ "C04": dict(engine="kani+symx", design_ref="§6 C04", technique="Kani/CBMC proof harness (J recursion, normalisation formula with an injective Gamma tag); z3 queries on sample_edge normalisation; exact-rational comparison", note="Trusted: CBMC, the stubs (Gamma replaced by an injective tag: numerical values of Gamma and pi^(DL/2) are not claimed), z3, the oracle.",
+   text="Partial. (a) Kani, E=2, all abstract graphs: J(empty)=1, J({e})=1, J(full) = 1/omega({1}) + 1/omega({0}) and cached_factor = J(full)*G(dod)/(G(w0)G(w1))*pi^(D*loops/2) with G an injective stand-in for Gamma. (b) symx/z3 (part C06, real arithmetic): on every subgraph of every catalogue graph the running sum of J(g\\e)/(J(g) omega(g\\e)) computed exactly from the table entries is within 1e-12 of the oracle's exact distribution and no u <= 1-1e-12 falls through, i.e. the probabilities sum to one. (c) concrete: J of every subset vs the recursion on the table's own entries and vs exact rationals; normalisation vs the formula."),
+ "C05": dict(engine="kani+mir2smt+symx", design_ref="§6 C05", technique="Kani/CBMC proof harness (accept iff no divergent proper subgraph, J finite positive, no panic); MIR->SMT bit-vector query for the size limit", note="Trusted: CBMC, the stubs, rustc MIR, z3. Determinism of the HashSet routines is argued, not solver-checked.",
+   text="Kani, E=2, every assignment of loop numbers/flags, weights in [1/8,8], one D per run (all D=1..6 in the thorough tier): Err iff some proper non-empty subset has generalised dod <= -1e-9 resp. Ok iff all >= 1e-9, J finite and > 0, no panic / overflow / out-of-bounds (Kani's checks, unwinding assertions on). mir2smt: TropicalSubGraphId::new(n) cannot panic for n < MAX_EDGES (n = MAX_EDGES = 64 does: known finding). Concrete: acceptance, J > 0 and bit-identical rebuild on catalogue + awkward graphs."),
+ "C12": dict(engine="kani+mir2smt", design_ref="§6 C12", technique="Kani/CBMC proof of the wrapper with an arbitrary kernel; MIR->SMT (QF_FP) of the loop-free early return of the kernel", note="Trusted: CBMC, rustc MIR, z3. NOT claimed: accuracy |P(a,lambda)-p| <= 2e-8, monotonicity, absence of panics inside the iterative kernel (input-dependent loops over statrs special functions: not encodable within reach).",
+   text="A slice only. (a) Kani: for EVERY f64 a, p, eps and every possible kernel result, inverse_gamma_lr returns Ok(v) only with v finite and > 0 (NaN, infinities, -0.0, negatives are errors) — the 'error or finite lambda > 0' clause on the whole domain. (b) mir2smt: the current MIR of inverse_gamma_lr_impl's entry path (shape within 1e-8 of 1): path condition is exactly that range; for p in [0,1) with fl(1-p) < 1 the value -ln(1-p) is finite and > 0 (ln uninterpreted with ln 1 = 0, ln < 0 on (0,1)); for fl(1-p) = 1 it is -0.0 (an error after the fix). (c) that a sample's lambda is this function of (dod, coordinate 2E-2, 5.0) is C14/C19."),
+ "C20": dict(engine="symx+mir2smt", design_ref="§6 C20", technique="symbolic execution of Vector<Sym,D> (IEEE mode) + z3 QF_FP; MIR->SMT of impl MomTropFloat for f64", note="Trusted: z3 (5.1 for QF_FP), rustc MIR; std::f64::{ln,exp,cos,sin,powf} uninterpreted.",
+   text="(a) Vector::<Sym,D>, D=1..8, all binary64 components: +, -, scaling by value and by reference, += are componentwise; dot is the left-to-right sum from +0.0; squared(v) = dot(v,v); dot symmetric (per-component IEEE commutativity proved bit-precisely); constructors and accessors round-trip — identical terms or QF_FP equality. (b) the MIR of each of the 14 functions of impl MomTropFloat for f64 is translated and proved equal to its specification: inv(x) = 1/x, from_isize exact int->float conversion for all 2^64 inputs, from_f64/to_f64 identity, PI/zero/one constants, abs/sqrt the IEEE operations, ln/exp/cos/sin/powf call exactly the std function on exactly self (and power)."),
  "C16": sx("decompose_for_tropical is executed with IEEE-754 binary64 semantics on symbolic f64 entries (n=1; n=2 diagonal; n=2 full as counterexample search in the thorough tier), every value including NaN, infinities and subnormals, and a symbolic tolerance >= 0: z3 (QF_FP, bit-precise) proves that Ok implies determinant != 0, that any answer other than ZeroDet implies a non-zero Cholesky pivot product, and that with Some(tol) an Ok result has |inverse*M-1|_{2,1} <= tol and no NaN in any returned field.", "§6 C16", "symbolic execution of decompose_for_tropical (T=Sym, IEEE mode) + z3 QF_FP bit-precise queries; native replay"),
  "C02": sx("With the Feynman parameters abstracted to arbitrary positive reals (so every x-space point and sector is covered) and fixed rational kinematics per catalogue graph, z3 proves U_tr <= u <= N_T U_tr and (c_min/N_T) V_tr <= v <= C_sum V_tr for the code's u and v, the maxima being encoded by quantifier alternation over the finitely many monomials (oracle: exact spanning-tree / 2-forest enumeration); the tropical normalisation U_tr^(D/2) V_tr^dod = 1 comes from the C07 part, and a log-space lemma composes them into the stated interval for jacobian/normalisation.", "§6 C02", "symbolic execution (T=Sym) + z3 QF_NRA with disjunctive monomial bounds, QF_LRA composition lemma"),
  "C11": sx("On every sector path: u_trop = v_trop = 1; jacobian = cached_factor * u^(-D/2) * v^(-dod) and = cached_factor * (U_tr/U)^(D/2) (V_tr/V)^dod at the unrescaled parameters (log-linear z3 queries with the code's own scaling term), cached_factor = I_tr*Gamma(dod)/prod Gamma(w)*pi^(DL/2) with I_tr from the oracle's exact J recursion, and the homogeneity facts U(x) = s^L U(x~), F(x) = s^(L+1) F(x~), u = U(x).", "§6 C11", "symbolic execution of sample() (T=Sym) + z3 QF_LRA (log-linear) and QF_NRA queries"),
